@@ -53,4 +53,6 @@ class CallWriteHandler(AbstractWriteHandler):
         self.decompiler.write_stmnt(f"call @label_{op.label.id};")
         exits = self.start_vertex.out_edges()
         assert 3 > len(exits) > 0, f"A call must have exactly one or two points to jump to, has {len(exits)}."
-        return exits[0].target_vertex
+        # Continue with the operation after the call (the edge with the lower flow level), not with the called label.
+        # The order of the edges depends on where the label is in the routine.
+        return min(exits, key=lambda e: e["flow_level"]).target_vertex
